@@ -108,4 +108,9 @@ def c30_corpus():
                     extra={"seed": 3}))
     # known finding: remove + set of the same instance in one iteration (the set sees the erased history)
     out.append({'custom_rate': 1.0, 'customs': {'a': ['x']}, 'disorder': 0.2, 'fail_rate': 0.0, 'fcp': 1, 'icp': 1, 'ops': [{'args': {'tasks': ['1/a']}, 'cmd': 'hold', 'tick': 3}, {'args': {'tasks': ['1/a']}, 'cmd': 'hold', 'tick': 4}, {'args': {'tasks': ['1/b']}, 'cmd': 'release', 'tick': 4}, {'args': {'point': '1'}, 'cmd': 'set_hold_point', 'tick': 5}, {'args': {'flow': ['all'], 'tasks': ['1/a']}, 'cmd': 'remove_tasks', 'tick': 6}, {'args': {'flow': ['all'], 'outputs': None, 'prerequisites': None, 'tasks': ['1/a']}, 'cmd': 'set', 'tick': 6}, {'args': {'flow': ['all'], 'outputs': None, 'prerequisites': ['all'], 'tasks': ['1/b']}, 'cmd': 'set', 'tick': 7}, {'args': {'tasks': ['1/a']}, 'cmd': 'release', 'tick': 8}, {'args': {'tasks': ['1/a']}, 'cmd': 'release', 'tick': 9}, {'args': {}, 'cmd': 'release_hold_point', 'tick': 10}], 'opt': [['a', 'succeeded', False], ['a', 'x', False], ['b', 'failed', True], ['b', 'succeeded', True]], 'queues': {}, 'runahead': 2, 'sections': [{'lines': [{'lhs': None, 'rhs': 'b'}, {'lhs': {'off': -1, 'out': 'succeeded', 'task': 'a'}, 'rhs': 'b'}, {'lhs': {'args': [{'off': -1, 'out': 'x', 'task': 'a'}, {'args': [{'off': -2, 'out': 'succeeded', 'task': 'a'}, {'off': -1, 'out': 'succeeded', 'task': 'a'}], 'op': 'or'}], 'op': 'and'}, 'rhs': 'b'}], 'rec': 'R1/$'}, {'lines': [{'lhs': None, 'rhs': 'a'}, {'lhs': None, 'rhs': 'b'}, {'lhs': {'off': -1, 'out': 'succeeded', 'task': 'b'}, 'rhs': 'a'}, {'lhs': {'off': -1, 'out': 'x', 'task': 'a'}, 'rhs': 'a'}, {'lhs': {'args': [{'off': -1, 'out': 'failed', 'task': 'b'}, {'off': 0, 'out': 'x', 'task': 'a'}], 'op': 'or'}, 'rhs': 'b'}], 'rec': 'P2'}], 'seed': 53602053, 'tasks': ['a', 'b']})
+    # a ran in flow 1, is re-triggered in a NEW flow and then removed without --flow: the history of flow 1 goes too
+    out.append(_scn(["a", "b", "z"], "R1", [_node("a"), _node("b"), _node("z"), {"lhs": _at("a"), "rhs": "b"}],
+                    slow={"a": 3, "z": 40},
+                    ops=[{"tick": 12, "cmd": "force_trigger_tasks", "args": {"flow": ["new"], "tasks": ["1/a"]}},
+                         {"tick": 14, "cmd": "remove_tasks", "args": {"tasks": ["1/a"], "flow": []}}]))
     return out
